@@ -1469,7 +1469,14 @@ impl Scenario for PzScenario {
                     let by_twin = twin.is_some() && (o[0] / 8) % 3 == 0;
                     // (over a long dictionary every other payload is a slice of it, taken anywhere)
                     let o = if tlen >= 10_000 && (o[0] / 8) % 2 == 0 { [o[0], 9, o[2], o[3]] } else { o };
-                    let (p, kind) = pay2(o, &training, outs.last().map(|x| x.payload.as_slice()), outs.last().map(|x| x.bytes.as_slice()), 2600);
+                    let (p, kind) = if (o[0] / 64) % 24 == 0 {
+                        // one payload in 24 is just over 64 KiB (the presets' multithreading threshold and
+                        // the 2-byte fields of the format live there): text, runs or records
+                        let k = [0usize, 6, 5][(o[2] % 3) as usize];
+                        (corpus(k, 65_530 + (o[3] % 40) as usize, o[2] >> 4), format!("{}-over-64KiB", CORPUS_NAME[k]))
+                    } else {
+                        pay2(o, &training, outs.last().map(|x| x.payload.as_slice()), outs.last().map(|x| x.bytes.as_slice()), 2600)
+                    };
                     let who_name = if by_twin { twin.as_ref().unwrap().1 } else { "original" };
                     cx.ev(format!("compress p{}({} B, {}, {}) by the {}", id, p.len(), kind, head(&p), who_name));
                     let mut bytes = Vec::new();
